@@ -287,6 +287,26 @@ def alphabet(fam, is_set, keys, vals, rich=True, tree=True):
     return ops
 
 
+def deep_histories(is_set, keys, vals):
+    """Scripted histories that reach 4-level trees at node sizes 2/2 and thin
+    them again: fills of 7..len(keys) keys in three orders, followed by (a)
+    each single deletion, (b) whole deletion sequences in five orders, each
+    followed by re-insertion of the deleted keys."""
+    ins = (lambda k: ("add", k)) if is_set else (lambda k: ("setitem", k, vals[0]))
+    dele = (lambda k: ("remove", k)) if is_set else (lambda k: ("delitem", k))
+    n = len(keys)
+    for m in range(7, n + 1):
+        ks = keys[:m]
+        orders = [ks, ks[::-1], ks[::2] + ks[1::2]]
+        for fill in orders:
+            base = tuple(ins(k) for k in fill)
+            yield base
+            for k in ks:
+                yield base + (dele(k), ins(k))
+            for seq in (ks, ks[::-1], ks[::2] + ks[1::2], ks[1::2] + ks[::2], ks[::3] + ks[1::3] + ks[2::3]):
+                yield base + tuple(dele(k) for k in seq) + tuple(ins(k) for k in seq[:3])
+
+
 def histories(ops_core, ops_all, seed, exhaustive_len, n_random, random_len):
     """Exhaustive histories of the core mutators up to exhaustive_len, then
     seeded random ones over the whole alphabet."""
